@@ -61,11 +61,8 @@ Variable wf : workflow.
 Let T := spec_table wf.
 Hypothesis DOM : c03_aligned wf = true.
 
-Lemma dom_parts : wf_ok wf = true /\ share_class wf = true /\ comb_all_prev_class wf = true /\ empty_comb_class wf = true.
-Proof.
-  unfold c03_aligned in DOM. apply andb_true_iff in DOM. destruct DOM as [D D4].
-  apply andb_true_iff in D. destruct D as [D D3]. apply andb_true_iff in D. destruct D as [D1 D2]. auto.
-Qed.
+Lemma dom_parts : wf_ok wf = true /\ share_class wf = true.
+Proof. unfold c03_aligned in DOM. apply andb_true_iff in DOM. exact DOM. Qed.
 Lemma T_length : List.length T = List.length wf.
 Proof. unfold T, spec_table. rewrite spec_from_length. reflexivity. Qed.
 Lemma T_nth n nd : nth_error wf n = Some nd -> exists e, nth_error T n = Some e.
@@ -98,10 +95,9 @@ Proof.
     destruct (spec_from_prefix wf rest (stab ++ [e])) as [ext Eext]. rewrite HT, <- app_assoc in Eext.
     assert (HeT : nth_error T n = Some e).
     { rewrite Eext. rewrite nth_error_app2 by (unfold n; lia). unfold n. rewrite Nat.sub_diag. reflexivity. }
-    destruct dom_parts as [D1 [D2 [D3 D4]]].
+    destruct dom_parts as [D1 D2].
     pose proof (on_nodes_nth wf node_wf n nd e D1 Hnd HeT) as NW.
     pose proof (on_nodes_nth wf _ n nd e D2 Hnd HeT) as SH. cbn beta in SH. fold T in SH.
-    pose proof (on_nodes_nth wf _ n nd e D3 Hnd HeT) as CA. cbn beta in CA. fold T in CA.
     assert (Hflt : forall x, In (BUp x) (n_fields nd) -> x < List.length stab) by (intros x Hx; exact (wf_fields_lt n nd Hnd x Hx)).
     assert (EU : ups T (n_fields nd) = ups stab (n_fields nd)) by (rewrite Eext; apply ups_ext; exact Hflt).
     assert (Hpar : forall z, z < n -> parents wf T z = parents wf stab z).
@@ -109,8 +105,6 @@ Proof.
       assert (Hz' : nth_error wf z = Some (node_at wf z)).
       { unfold node_at. apply nth_error_nth'. pose proof (proj1 (nth_error_Some wf n) ltac:(rewrite Hnd; discriminate)). lia. }
       pose proof (wf_fields_lt z _ Hz' w Hw). unfold n in Hz. lia. }
-    assert (CA' : comb_all_prev_ok stab nd = true).
-    { unfold comb_all_prev_ok in *. rewrite EU in CA. rewrite Eext, up_axes_ext in CA by exact Hflt. exact CA. }
     assert (Hstep' : exists me, step wf mtab n nd = Some me /\ entry_ok wf (stab ++ [e]) n nd me e).
     { unfold sharing_ok in SH. apply orb_true_iff in SH. destruct SH as [SH|SH].
       - (* separate origins *)
@@ -119,7 +113,7 @@ Proof.
           intros x y Hx Hy. apply ups_in in Hx. apply ups_in in Hy. destruct Hx as [Hx _], Hy as [Hy _].
           pose proof (Hflt x Hx) as Lx. pose proof (Hflt y Hy) as Ly.
           unfold sep_ok. rewrite (Hpar y Ly). rewrite Eext, !s_faxes_of_app by assumption. reflexivity. }
-        exact (step_ok wf mtab stab n nd TO eq_refl Hnd wf_fields_lt NW CA' SH').
+        exact (step_ok wf mtab stab n nd TO eq_refl Hnd wf_fields_lt NW SH').
       - (* a state and its relay *)
         rewrite EU in SH. destruct (ups stab (n_fields nd)) as [|x [|y [|z l]]] eqn:EUU; try discriminate SH.
         assert (Lx : x < n).
@@ -130,9 +124,9 @@ Proof.
         { intros a b La Lb. unfold relays. rewrite (Hpar a La), (Hpar b Lb). reflexivity. }
         apply orb_true_iff in SH. destruct SH as [SH|SH].
         + rewrite (Hrel x y Lx Ly) in SH.
-          exact (step_relay wf mtab stab n nd TO eq_refl Hnd NW CA' x y (or_introl EUU) SH).
+          exact (step_relay wf mtab stab n nd TO eq_refl Hnd NW x y (or_introl EUU) SH).
         + rewrite (Hrel y x Ly Lx) in SH.
-          exact (step_relay wf mtab stab n nd TO eq_refl Hnd NW CA' y x (or_intror EUU) SH). }
+          exact (step_relay wf mtab stab n nd TO eq_refl Hnd NW y x (or_intror EUU) SH). }
     destruct Hstep' as [me [Hstep EOn]].
     cbn [run_from]. rewrite (proj1 TO). fold n. rewrite Hstep.
     apply (IH (mtab ++ [me]) (stab ++ [e])).
@@ -176,16 +170,14 @@ Proof.
     assert (Hi : i < List.length wf) by (rewrite <- T_length; apply nth_error_Some; rewrite H2; discriminate).
     destruct (nth_error wf i) as [nd|] eqn:Hnd; [|apply nth_error_None in Hnd; lia].
     pose proof (proj2 TO i nd me se Hnd H1 H2) as EO.
-    apply (get_value_output wf _ _ _ _ _ EO).
-    exact (on_nodes_nth wf _ i nd se (proj2 (proj2 (proj2 dom_parts))) Hnd H2).
+    exact (get_value_output wf _ _ _ _ _ EO).
 Qed.
 End Main.
 
 Theorem partial : forall wf, c03_domain wf = true -> model_run wf = Some (spec_run wf).
 Proof.
   intros wf H. apply aligned. unfold c03_domain in H. unfold c03_aligned.
-  apply andb_true_iff in H. destruct H as [H H4]. apply andb_true_iff in H. destruct H as [H H3].
-  apply andb_true_iff in H. destruct H as [H1 H2]. rewrite H1, H3, H4.
+  apply andb_true_iff in H. destruct H as [H1 H2]. rewrite H1.
   assert (S : share_class wf = true).
   { unfold share_class, separate_class, on_nodes in *. rewrite forallb_forall in H2. apply forallb_forall.
     intros z Hz. specialize (H2 z Hz). cbn beta in *. unfold sharing_ok. rewrite H2. reflexivity. }
